@@ -413,3 +413,82 @@ unsafe fn dispose_general_node<T: RcObject>(
         guard.defer_with_inner(rc, |rc| RcInner::try_destruct(rc));
     }
 }
+
+#[cfg(feature = "circ_verif")]
+pub(crate) unsafe fn verif_count_word<T>(obj: usize) -> u64 {
+    (*(obj as *const RcInner<T>)).state.load(Ordering::SeqCst)
+}
+
+#[cfg(feature = "circ_verif")]
+pub(crate) unsafe fn verif_free<T>(obj: usize) {
+    drop(Box::from_raw(obj as *mut RcInner<T>));
+}
+
+/// The count word and the modular epoch comparison, exported for exhaustive enumeration.
+#[cfg(feature = "circ_verif")]
+pub mod verif_state {
+    use super::{Modular, State, EPOCH_WIDTH};
+
+    pub const EPOCH_BITS: u32 = super::EPOCH_WIDTH;
+    pub const STRONG_BITS: u32 = super::STRONG_WIDTH;
+    pub const WEAK_BITS: u32 = super::WEAK_WIDTH;
+
+    pub fn epoch(w: u64) -> u32 {
+        State::from_raw(w).epoch()
+    }
+    pub fn strong(w: u64) -> u32 {
+        State::from_raw(w).strong()
+    }
+    pub fn weak(w: u64) -> u32 {
+        State::from_raw(w).weak()
+    }
+    pub fn destructed(w: u64) -> bool {
+        State::from_raw(w).destructed()
+    }
+    pub fn weaked(w: u64) -> bool {
+        State::from_raw(w).weaked()
+    }
+    pub fn with_epoch(w: u64, epoch: usize) -> u64 {
+        State::from_raw(w).with_epoch(epoch).as_raw()
+    }
+    pub fn add_strong(w: u64, val: u32) -> u64 {
+        State::from_raw(w).add_strong(val).as_raw()
+    }
+    pub fn sub_strong(w: u64, val: u32) -> u64 {
+        State::from_raw(w).sub_strong(val).as_raw()
+    }
+    pub fn add_weak(w: u64, val: u32) -> u64 {
+        State::from_raw(w).add_weak(val).as_raw()
+    }
+    pub fn with_destructed(w: u64, d: bool) -> u64 {
+        State::from_raw(w).with_destructed(d).as_raw()
+    }
+    pub fn with_weaked(w: u64, d: bool) -> u64 {
+        State::from_raw(w).with_weaked(d).as_raw()
+    }
+    /// The decrement that one weak owner's release applies (`fetch_sub` operand).
+    pub fn weak_unit() -> u64 {
+        super::WEAK_COUNT
+    }
+    /// The increment that one strong owner applies (`fetch_add` operand).
+    pub fn strong_unit() -> u64 {
+        super::COUNT
+    }
+    /// The test `dispose_general_node` applies to a child stamped `stamp` when the global
+    /// epoch is `curr_epoch`: `true` means "old enough, reclaim in this pass".
+    ///
+    /// This is a copy of that expression over the real `Modular`; the expression in place is
+    /// exercised end to end by driving real cascades.
+    pub fn reclaim_decision(stamp: u32, curr_epoch: usize) -> bool {
+        let modu: Modular<EPOCH_WIDTH> = Modular::new(curr_epoch as isize + 1);
+        modu.le(stamp as _, curr_epoch as isize - 3)
+    }
+    /// The merge `dispose_general_node` applies to (node, link, child) stamps.
+    pub fn merge_stamps(curr_epoch: usize, stamps: &[isize]) -> isize {
+        let modu: Modular<EPOCH_WIDTH> = Modular::new(curr_epoch as isize + 1);
+        modu.max(stamps)
+    }
+    pub fn modular_le(max: isize, a: isize, b: isize) -> bool {
+        Modular::<EPOCH_WIDTH>::new(max).le(a, b)
+    }
+}
